@@ -245,6 +245,21 @@ example : exPattern2.safe = true ∧ (∀ v ∈ exPattern2.allVars, v < 4) ∧ e
 example : (Model.evalPart exData2 exData2.dflt (Row.empty : Row 4) exPattern2).length = 2 := by decide +kernel
 example : (Spec.eval exData2 exData2.dflt (Row.empty : Row 4) exPattern2).length = 2 := by decide +kernel
 
+/-- `GRAPH ?v2 { OPTIONAL { ?v0 <10> ?v1 } }` over a dataset with a registered named graph WITHOUT triples: the empty
+    graph contributes the solution that binds only `?v2` (`pushdown_graph_unbound` is about every named graph) -/
+def exPattern3 : Alg :=
+  .graph (.var 2) (.leftJoin (.bgp []) (.bgp [tp (.var 0) (.const (i 10)) (.var 1)]) (.const (.bool true))
+    (some []) (some [0, 1]))
+def exData3 : Dataset := ⟨[], [(i 20, []), (i 21, [(i 0, i 10, i 1), (i 1, i 10, i 1)])]⟩
+
+example : exPattern3.safe = true ∧ (∀ v ∈ exPattern3.allVars, v < 3) ∧ exData3.WF := by
+  refine ⟨by decide, by decide, ?_⟩
+  unfold Dataset.WF; decide
+example : (Model.evalPart exData3 exData3.dflt (Row.empty : Row 3) exPattern3).length = 3 := by decide +kernel
+example : (Spec.eval exData3 exData3.dflt (Row.empty : Row 3) exPattern3).length = 3 := by decide +kernel
+example : (Row.empty : Row 3).set 2 (i 20) ∈ Spec.eval exData3 exData3.dflt (Row.empty : Row 3) exPattern3 := by
+  decide +kernel
+
 /-- push-down with a non-empty context that rules solutions out -/
 example : (Model.evalPart exData exData.dflt ((Row.empty : Row 4).set 0 (i 1)) exPattern).length = 2 := by decide +kernel
 
